@@ -144,6 +144,10 @@ def check_c14(tier):
         if 'done' not in vs:
             rep.machinery(f"no verdict for parser case {key}")
         bad = sorted(x for x in vs if x != 'done')
+        if 'vep_negative_position_multibase' in bad:
+            bad = [x for x in bad if x not in ('vep_negative_position_multibase', 'vep_outside_not_recorded')]
+            rep.violation('vep_multibase_allele_at_gene_start', f"parser record for {v} has a negative gene position; result {json.dumps(o)[:200]}",
+                          dict(gtf=ref.gtf_lines(), chroms=ref.chroms, input=v, result=o))
         if bad:
             rep.violation(f"parse:{key}:{','.join(bad)}", f"parser record for {v} violates {bad}; result {json.dumps(o)[:300]}",
                           dict(gtf=ref.gtf_lines(), chroms=ref.chroms, input=v, result=o))
